@@ -20,6 +20,7 @@ component raise TemplateNotFoundError; nothing raises anything else.
 from __future__ import annotations
 
 import asyncio
+import errno
 import itertools
 import json
 import multiprocessing
@@ -79,7 +80,14 @@ class Tree:
 
     def build(self) -> None:
         n = 0
-        for rel_dir, names in ((self.T / "a", R1_FILES), (self.T / "b", R2_FILES),
+        # the longest component the scratch file system accepts (255 bytes on ext4/overlayfs/tmpfs)
+        try:
+            self.name_max = int(os.pathconf(self.outer, "PC_NAME_MAX"))
+        except (OSError, ValueError):
+            self.name_max = 255
+        m = self.name_max
+        boundary = ["y" * m, "z" * (m - 7) + ".liquid", "w" * (m - 2) + ".b", "b/" + "y" * m]
+        for rel_dir, names in ((self.T / "a", R1_FILES + boundary), (self.T / "b", R2_FILES),
                                (self.T, DECOYS_T), (self.outer, DECOYS_OUT)):
             for nm in names:
                 p = rel_dir / nm
@@ -713,6 +721,15 @@ def seeded_names(tree: Tree, tier: str) -> list[str]:
                 stems.add(p[: -len(e)])
         for s in sorted(stems):
             out += [s, "/" + s, "//" + s, s + "/", s + "/."]
+    # name-length boundaries: a component of NAME_MAX bytes exists in T/a ("y"*m, and
+    # "z"*(m-7) + ".liquid" for the default extension); one more byte cannot exist on the
+    # file system at all (ENAMETOOLONG), nor can a path longer than PATH_MAX
+    m = tree.name_max
+    out += ["y" * (m - 1), "y" * m, "y" * (m + 1), "x" * (m + 1), "x" * (m + 45), "a/" + "x" * (m + 1),
+            "b/" + "y" * m, "b/" + "y" * (m + 1), "x" * (m + 1) + "/a", "x" * (m + 1) + ".liquid",
+            "z" * (m - 7), "z" * (m - 6), "z" * (m - 8), "x" * (m - 5), "w" * (m - 2), "w" * (m - 1),
+            "ü" * (m // 2), "ü" * (m // 2 + 1), "../" + "x" * (m + 1), "/" + "x" * (m + 1), "~/" + "x" * (m + 1),
+            "ab/" * 1400 + "a", "./" * 2100 + "a", ("x" * 200 + "/") * 21 + "a"]
     for p in ("/etc/passwd", "/etc/hostname", "/etc/hosts"):
         if os.path.isfile(p):
             out += [p, "/" + p, "//" + p, "a/.." * 8 + p, "../" * 12 + p[1:]]
@@ -854,7 +871,7 @@ def _main(chk: C.Check, tree: Tree, thorough: bool) -> None:
     dist = {"found": 0, "not_found": 0, "other_exception": 0, "loads": 0, "tag_paths_skipped": 0,
             "paths_skipped_at_length_bound": 0}
     nontrivial: set[str] = set()
-    n_found = n_escape_target = n_dir = n_tilde = 0
+    n_found = n_escape_target = n_dir = n_tilde = n_toolong = 0
     extra_cases = 0
 
     def obs(o: tuple) -> tuple:
@@ -932,10 +949,21 @@ def _main(chk: C.Check, tree: Tree, thorough: bool) -> None:
                     except (ValueError, OSError):
                         pass
         n_tilde += tilde_target
+        # names the file system cannot even probe below a search directory
+        too_long = False
+        if not is_escaping(name) and "\0" not in name:
+            for e in ("", ".liquid"):
+                try:
+                    os.lstat(os.path.join(str(tree.T / "a"), name.rstrip("/") + e))
+                except OSError as err:
+                    too_long = too_long or err.errno == errno.ENAMETOOLONG
+                except ValueError:
+                    pass
+        n_toolong += too_long
         n_found += found_any
         n_escape_target += esc_target
         n_dir += is_dir
-        if found_any or esc_target or is_dir or tilde_target:
+        if found_any or esc_target or is_dir or tilde_target or too_long:
             nontrivial.add(name)
 
     # extension sweep (valid and invalid default extensions): model tie for
@@ -1025,7 +1053,8 @@ def _main(chk: C.Check, tree: Tree, thorough: bool) -> None:
         "distinct_nontrivial": len(nontrivial),
         "rule": (f"template names: all {len(ex)} strings over the alphabet {{a, b, ., /}} up to length {maxlen}, plus {len(sd)} "
                  "seeded names (absolute paths of every file of the scratch tree incl. the decoys with 1-3 leading slashes, "
-                 "/etc/passwd, unicode, backslash, NUL, '~', lone surrogates, look-alike dots and slashes, random joins of a "
+                 "/etc/passwd, unicode, backslash, NUL, '~', lone surrogates, look-alike dots and slashes, components of NAME_MAX-1 / "
+                 "NAME_MAX / NAME_MAX+1 bytes with and without room for the default extension, paths over PATH_MAX, random joins of a "
                  f"segment pool) x {len(CONFIGS)} loader configurations (FileSystemLoader, CachingFileSystemLoader, PackageLoader, "
                  "ChoiceLoader, nested ChoiceLoader, CachingChoiceLoader; one / two / reversed search paths, absolute or relative to the process cwd incl. the cwd itself as '.', '', Path(), './a', 'b/'; "
                  "HOME points at a scratch decoy directory; ext None, "
@@ -1035,12 +1064,13 @@ def _main(chk: C.Check, tree: Tree, thorough: bool) -> None:
                  "with or without an extension, "
                  f"touches something on disk); plus {len(ext_jobs)} (default extension x name) cases incl. invalid extensions. "
                  "non-trivial = names that some configuration served from a search directory, escaping names whose unguarded join "
-                 "hits an existing file outside the search directory, names that resolve to a directory, and names with a leading '~' "
-                 "whose user-directory expansion would hit an existing file"),
+                 "hits an existing file outside the search directory, names that resolve to a directory, names with a leading '~' "
+                 "whose user-directory expansion would hit an existing file, and names too long for the file system to probe"),
         "samples": samples,
         "distribution": dict(dist, names=len(names), names_found_somewhere=n_found,
                              escaping_names_with_existing_target=n_escape_target, names_of_directories=n_dir,
                              tilde_names_with_existing_expansion_target=n_tilde,
+                             names_too_long_for_the_file_system=n_toolong,
                              extra_access_path_cases=extra_cases, live_loader_histories=hstat,
                              degenerate_configurations=len(CONFIGS_D), oracle_failures=orc.failures,
                              oracle_failures_by_signature=orc.by_sig,
@@ -1051,7 +1081,9 @@ def _main(chk: C.Check, tree: Tree, thorough: bool) -> None:
     chk.assumptions += [
         "pathlib / posixpath (CPython 3.12, POSIX flavour) are modelled in parsed form (root, components); validated by this run, not verified",
         "the file system is a function from lexical paths to regular-file contents: symbolic links placed inside a search "
-        "directory by the operator, name-length limits (ENAMETOOLONG raises OSError) and permissions are outside the model",
+        "directory by the operator are outside the model; a path the OS refuses to probe (component over NAME_MAX, path "
+        "over PATH_MAX, directory without search permission) is 'no file here' in the model as in the code (fix 0004); "
+        "name-length boundaries are in the run, permissions cannot be (the checks run as root)",
         "PackageLoader over a package that is a directory on disk (importlib.resources.files returns a PosixPath); zip imports are outside the model",
-        "the model is of the loaders with the three fix: patches of /verif/proposed_fixes/C13 applied",
+        "the model is of the loaders with the four fix: patches of /verif/proposed_fixes/C13 applied",
     ]
